@@ -166,19 +166,20 @@ LEVEL_TEXT = {
     "C02": "Before every event clock == event date and clock non-decreasing; after every event no node/stream/renege/class-change date in the past; "
            "every record checked for its ordering and exact arithmetic as it is written." + _COMMON,
     "C03": "Every customer's records parsed as a journey grammar (visits = interruptions* + one terminal record; node/arrival-date chaining; "
-           "location = last destination; records vs announced departures); reference-model refinement." + _COMMON,
+           "location = last destination; records of a visit in time order; records vs announced departures); reference-model refinement." + _COMMON,
     "C04": "Server/customer bijection, on-duty count == c, no attach to a busy server (shadow occupancy from attach/detach), server stays until its "
-           "customer leaves or is interrupted, per-server record intervals disjoint, utilisation recomputed from attach/detach times (also across pauses)." + _COMMON,
-    "C05": "After every event no on-duty server idle while a customer waits or is interrupted (all capacity/demand changes happen inside events); "
+           "customer leaves or is interrupted, per-server record intervals disjoint, utilisation recomputed from attach/detach times (also across pauses, also in exact arithmetic)." + _COMMON,
+    "C05": "After every event no on-duty server idle while a customer waits or is interrupted (all capacity/demand changes happen inside events); a "
+           "service started in an event carries that instant as its start date; "
            "reference-model refinement of every service start date." + _COMMON,
     "C06": "Population bounds after every event and a sequential admission oracle for every arrival event (batch members one by one: rejected iff "
            "node or system full at its turn, record shows the population seen); reference-model refinement." + _COMMON,
     "C07": "At the instant of every blocking/unblocking micro-event: blocked only if destination full, released in the harness's own FIFO order of "
            "blocking (cascades included), never left blocked with space, holds its server, time_blocked == span block->release; reference-model refinement." + _COMMON,
     "C08": "At the instant of every discipline decision (public seam): chosen customer waits, belongs to the best priority line, and is first/last "
-           "of the harness's own per-priority shadow line (FIFO/LIFO); every service start justified by a decision; reference-model refinement." + _COMMON,
+           "of the harness's own per-priority shadow line (FIFO/LIFO), slotted nodes included; every service start justified by a decision; reference-model refinement." + _COMMON,
     "C09": "Every transition checked against the routing spec of the customer's class (probability > 0, Direct/Leave/Cycle exact, JSQ/LB minimal on the "
-           "pre-event state, process routes in order), class changes against the matrix, priority line == class priority; boundary draws injected; reference model." + _COMMON,
+           "pre-event state, process routes in order; pre-emptive reroutes are transitions too), class changes against the matrix, priority line == class priority; boundary draws injected; reference model." + _COMMON,
     "C10": "Tape audit: arrivals exactly at the running sums of the stream's samples, batch sizes honoured, every service end == start + its sample "
            "(draws consumed in order, none unused), no due arrival skipped; F5: a planted invalid sample must raise at that draw; reference model." + _COMMON,
     "C11": "No priority inversion after every event; victim rule at the instant of every pre-emption; resume/restart/resample bookkeeping by a "
